@@ -44,4 +44,14 @@ CHECKS["C10"] = {
     "note": TRUST + " Work is measured as Python call events on enumerated families only; a field's size is the length of its whole line.",
 }
 
+CHECKS["C07"] = {
+    "engine": "SCHED",
+    "design_ref": "§3 C07, §2.1-2.3",
+    "technique": "deviation-bounded exhaustive schedule exploration of the real BaseConnector on a virtual event loop",
+    "text": "N=2..3 (4 in thorough) client tasks x host maps x (limit, limit_per_host) x waiter-queue order run the real connect()/release()/close() on a virtual loop; "
+            "every schedule with at most d deviations (attempt failure, alternative release mode, cancel of any task, connector.close(), several events in one pass, timer first) "
+            "is executed; a harness ledger is compared with the limits and the connector's own sets after every pass, and lost wake-ups, leaks and close() effects are checked at quiescence.",
+    "note": TRUST + " _create_connection awaits a harness future; waiter shuffle is identity or reversal; bound d=2 quick, 3 thorough.",
+}
+
 NOT_APPLICABLE = {}
